@@ -313,6 +313,33 @@ func init() {
 			}
 			return s.Fmt.Args[0]
 		},
+		// vDecIntIn(tag, s string) int: the integer of the vEncInt(tag) string embedded in an opaque formatted string
+		"vDecIntIn": func(in *Interp, st *State, fr *Frame, fn *ssa.Function, args []Value) Value {
+			tag := mustStr(args[0], "vDecIntIn tag")
+			var find func(v Value) Value
+			find = func(v Value) Value {
+				s, ok := v.(StrV)
+				if !ok || s.Fmt == nil {
+					return nil
+				}
+				if s.Fmt.Format == "enc:"+tag {
+					return s.Fmt.Args[0]
+				}
+				for _, a := range s.Fmt.Args {
+					if iv, ok := a.(IfaceV); ok {
+						a = iv.V
+					}
+					if r := find(a); r != nil {
+						return r
+					}
+				}
+				return nil
+			}
+			if r := find(args[1]); r != nil {
+				return r
+			}
+			panic(unsupported("vDecIntIn: no embedded vEncInt(" + tag + ") value"))
+		},
 		// vLenAny(x any) int: length of the slice held in x
 		"vLenAny": func(in *Interp, st *State, fr *Frame, fn *ssa.Function, args []Value) Value {
 			sl, ok := args[0].(IfaceV).V.(SliceV)
@@ -684,6 +711,9 @@ func init() {
 				return StrV{Fmt: &OpaqueFmt{Format: strings.ReplaceAll(src, old, "%v"), Args: rv.Fmt.Args}}
 			}
 			return StrV{S: strings.ReplaceAll(src, old, mustStr(args[2], "ReplaceAll"))}
+		},
+		"strings.Replace": func(in *Interp, st *State, fr *Frame, fn *ssa.Function, args []Value) Value {
+			return StrV{S: strings.Replace(mustStr(args[0], "Replace"), mustStr(args[1], "Replace"), mustStr(args[2], "Replace"), int(constI64(args[3], "Replace")))}
 		},
 		"strings.Repeat": func(in *Interp, st *State, fr *Frame, fn *ssa.Function, args []Value) Value {
 			return StrV{S: strings.Repeat(mustStr(args[0], "Repeat"), int(constI64(args[1], "Repeat")))}
